@@ -1,4 +1,4 @@
-import argparse, fcntl, hashlib, json, os, re, shutil, subprocess, sys, time
+import argparse, fcntl, hashlib, json, os, re, resource, shutil, subprocess, sys, time
 
 V = "/verif"
 B = os.path.join(V, ".build")
@@ -12,9 +12,14 @@ FORBIDDEN = re.compile(r"sorry|\badmit\b|^axiom |native_decide|bv_decide|impleme
 from props import PROPS, TRUSTED_COMMON
 
 
-def sh(cmd, cwd=None, env=None, timeout=None, inp=None):
+def _limit():
+    # a runaway implementation (e.g. rand.Perm(2^32)) must not take the machine down
+    resource.setrlimit(resource.RLIMIT_AS, (24 << 30, 24 << 30))
+
+
+def sh(cmd, cwd=None, env=None, timeout=None, inp=None, limit=False):
     p = subprocess.run(cmd, cwd=cwd, env=env, timeout=timeout, input=inp, stdout=subprocess.PIPE,
-                       stderr=subprocess.STDOUT, text=True, shell=isinstance(cmd, str))
+                       stderr=subprocess.STDOUT, text=True, shell=isinstance(cmd, str), preexec_fn=_limit if limit else None)
     return p.returncode, p.stdout
 
 
@@ -165,7 +170,7 @@ def run_streams(pid, tier, seed, outdir, log, extra_env=None, only=None):
         tmo = st.get("timeout", 600) * (6 if tier == "thorough" else 1)
         t0 = time.time()
         try:
-            rc, out = sh([binary, "-test.run", "^%s$" % st["test"], "-test.timeout", "%ds" % tmo, "-test.v"], cwd=outdir, env=env, timeout=tmo + 60)
+            rc, out = sh([binary, "-test.run", "^%s$" % st["test"], "-test.timeout", "%ds" % tmo, "-test.v"], cwd=outdir, env=env, timeout=tmo + 60, limit=True)
         except subprocess.TimeoutExpired:
             rc, out = 124, "TIMEOUT"
         log.append(out[-20000:])
@@ -179,17 +184,26 @@ def run_driver(outdir, name):
         return None
     with open(ops) as fi, open(model, "w") as fo:
         p = subprocess.run([os.path.join(LEAN, ".lake/build/bin/driver")], stdin=fi, stdout=fo, stderr=subprocess.PIPE, timeout=3000)
-    div, n = [], 0
+    div, n, amb, skipping, skipped = [], 0, 0, False, 0
     with open(ops) as fo, open(impl) as fi, open(model) as fm:
         for lo, li, lm in zip(fo, fi, fm):
             n += 1
+            if lo.startswith(("cfg ", "db.new", "cl.reset")):
+                skipping = False
+            if lm.startswith("AMBIGUOUS"):
+                amb += 1      # the model cannot decide (documented boundary cases); counted, never silently dropped
+                skipping = True   # the rest of this script is not comparable (model state unknown)
+                continue
+            if skipping:
+                skipped += 1
+                continue
             if li != lm and len(div) < 20:
                 div.append({"line": n, "op": lo.strip()[:2000], "impl": li.strip()[:2000], "model": lm.strip()[:2000]})
         nops = n + sum(1 for _ in fo)
     nmodel = sum(1 for _ in open(model))
     if nmodel != nops:
         div.append({"line": nmodel + 1, "op": "(driver stopped early: %d of %d answers) %s" % (nmodel, nops, p.stderr.decode()[-300:]), "impl": "", "model": ""})
-    return {"stream": name, "ops": nops, "divergences": div}
+    return {"stream": name, "ops": nops, "divergences": div, "ambiguous": amb, "skipped_after_ambiguous": skipped}
 
 
 # ---------------------------------------------------------------- known findings, replays
@@ -334,7 +348,7 @@ def main(argv):
             "evaluations": evals, "distinct_nontrivial": dn,
             "rule": cfg.get("rule", ""),
             "traces_validated_against_impl": sum(c["ops"] for c in corr),
-            "correspondence": [{"stream": c["stream"], "ops": c["ops"], "divergences": len(c["divergences"])} for c in corr],
+            "correspondence": [{"stream": c["stream"], "ops": c["ops"], "divergences": len(c["divergences"]), "ambiguous": c.get("ambiguous", 0), "skipped_after_ambiguous": c.get("skipped_after_ambiguous", 0)} for c in corr],
             "input_distribution": {s["stream"]: s["dist"] for s in stats_all},
             "samples": samples[:16] or ["(no cases ran)"],
             "monitor_findings": len(findings), "known_findings_matched": len(findings) - len(new_findings),
